@@ -2811,12 +2811,14 @@ func (le *leaseEntry) renewable() (bool, error) {
 	case le.ExpireTime.IsZero():
 		return false, errors.New("lease is not renewable")
 
-	case le.ClientTokenType == logical.TokenTypeBatch:
-		return false, nil
-
-	// Determine if the lease is expired
+	// Determine if the lease is expired. This comes before the batch-token
+	// case below, which reports "not renewable" without an error: callers
+	// only look at the error and would renew an expired lease.
 	case le.ExpireTime.Before(time.Now()):
 		return false, errors.New("lease expired")
+
+	case le.ClientTokenType == logical.TokenTypeBatch:
+		return false, nil
 
 	// Determine if the lease is renewable
 	case le.Secret != nil && !le.Secret.Renewable:
